@@ -68,8 +68,17 @@ class SymSeq(SProto):
     def py_setitem(self, I, k, v):
         if self.kind == "tuple":
             I.raise_("TypeError", "'tuple' object does not support item assignment")
-        I.P.log_write(self, ("item",))
-        raise OutOfSubset("write into a symbolic sequence")
+        I.P.log_write(self, ("item", "setitem"))
+        if not (isinstance(k, SNum) and isinstance(v, SNum) and not v.extended):
+            raise OutOfSubset("write of a non-number / with a non-integer index into a symbolic sequence")
+        i = k.t
+        if I.P.branch(z3.And(i >= 0, i < self.n)):
+            self.elems = z3.Store(self.elems, i, v.real())
+            return
+        if I.P.branch(z3.And(i < 0, i >= -self.n)):
+            self.elems = z3.Store(self.elems, self.n + i, v.real())
+            return
+        I.raise_("IndexError", "list assignment index out of range")
 
     def py_eq(self, I, other):
         if isinstance(other, SymSeq) and other.kind == self.kind and self.kind in ("list", "tuple"):
@@ -123,14 +132,20 @@ class SymSeq(SProto):
         if isinstance(other, SymSeq) and other.kind == "numpy.ndarray":
             if isinstance(op, (ast.Div, ast.FloorDiv, ast.Mod)):
                 raise OutOfSubset("ndarray / ndarray (zero elements yield inf)")
-            # numpy broadcasting: equal lengths required for 1-d operands (else ValueError)
-            if not I.P.branch(self.n == other.n):
-                I.raise_("ValueError", "operands could not be broadcast together")
+            # numpy broadcasting of 1-d operands: equal lengths, or one operand of length 1 (repeated);
+            # anything else raises ValueError
             i = z3.Int("i!zip%d" % (_tok[0] + 1))
-            a, b = z3.Select(self.elems, i), z3.Select(other.elems, i)
+            if I.P.branch(self.n == other.n):
+                a, b, n = z3.Select(self.elems, i), z3.Select(other.elems, i), self.n
+            elif I.P.branch(other.n == 1):
+                a, b, n = z3.Select(self.elems, i), z3.Select(other.elems, 0), self.n
+            elif I.P.branch(self.n == 1):
+                a, b, n = z3.Select(self.elems, 0), z3.Select(other.elems, i), other.n
+            else:
+                I.raise_("ValueError", "operands could not be broadcast together")
             if reflected:
                 a, b = b, a
-            return SymSeq("numpy.ndarray", self.n, z3.Lambda([i], _arith(op, a, b)))
+            return SymSeq("numpy.ndarray", n, z3.Lambda([i], _arith(op, a, b)))
         return NotImplemented
 
     def py_iter(self, I):
